@@ -478,7 +478,7 @@ impl<'a, 'ast> Visit<'ast> for BodyVisitor<'a> {
             if let syn::Stmt::Local(l) = st {
                 if let (syn::Pat::Ident(pi), Some(init)) = (&l.pat, &l.init) {
                     if let syn::Expr::MethodCall(m) = &*init.expr {
-                        if m.method == "lock" && m.args.is_empty() {
+                        if (m.method == "lock" || m.method == "write") && m.args.is_empty() {
                             let recv = norm(self.src.slice(self.src.range(&*m.receiver)));
                             self.idx.lock_lets.push((pi.ident.to_string(), recv, self.src.range(st).1, close));
                         }
